@@ -16,7 +16,8 @@ type File struct {
 	*os.File
 	path string
 	// ReadLog is appended to the run's read log when the file is closed.
-	got []byte
+	got    []byte
+	failed bool
 }
 
 // ReadRecord is what one open/read*/close sequence of the code under test obtained.
@@ -57,6 +58,7 @@ func (f *File) Read(p []byte) (int, error) {
 		if readsHook != nil {
 			readsHook(ReadRecord{Path: f.path, Data: f.got, Err: "EIO", Step: Step()})
 		}
+		f.failed = true
 		return 0, &os.PathError{Op: "read", Path: f.path, Err: syscall.EIO}
 	}
 	n, err := f.File.Read(p)
@@ -65,7 +67,7 @@ func (f *File) Read(p []byte) (int, error) {
 }
 
 func (f *File) Close() error {
-	if readsHook != nil {
+	if readsHook != nil && !f.failed {
 		readsHook(ReadRecord{Path: f.path, Data: f.got, Step: Step()})
 	}
 	return f.File.Close()
